@@ -222,7 +222,12 @@ func C13Race(args []string) {
 
 func buildRaceBinary(ctx *core.Ctx) (string, error) {
 	out := filepath.Join(ctx.BinDir, "verif-race")
-	cmd := exec.Command("go", "build", "-race", "-tags", "verif", "-o", out, "./cmd/verif")
+	args := []string{"build", "-race", "-tags", "verif", "-o", out}
+	if mf := os.Getenv("VERIF_MODFILE"); mf != "" {
+		args = append(args, "-modfile="+mf)
+	}
+	args = append(args, "./cmd/verif")
+	cmd := exec.Command("go", args...)
 	cmd.Dir = filepath.Join(core.VerifDir, "harness")
 	cmd.Env = append(goEnv(), "CGO_ENABLED=1")
 	if b, err := cmd.CombinedOutput(); err != nil {
